@@ -12,11 +12,14 @@ import (
 // C12.d — the database's own scans (iterateRange / iteratePrefix / iterateKeyPrefix, upperBound).
 //
 // These functions are written against the concrete *pebble.Iterator. Under the engine the iterator's
-// methods (and DB/Snapshot.NewIter) are redirected by //zz:stub to the small sorted-list model below
-// (pebble semantics: LowerBound inclusive, UpperBound exclusive, nil = unbounded; SeekGE = first key
-// ≥ k, SeekLT = last key < k). Natively the stubs do not exist: the very same harness opens a real
-// in-memory pebble database, so every counterexample and every witness is re-executed on real pebble
-// (and the Observe values compare model and pebble).
+// methods are redirected by //zz:stub to the small sorted-list model below (pebble semantics:
+// LowerBound inclusive, UpperBound exclusive, nil = unbounded; SeekGE = first key ≥ k, SeekLT = last
+// key < k) and the harness calls iterateRange / iteratePrefix / iterateKeyPrefix directly, with the
+// iterator options DB.Iterate / DB.IterateKey / DB.IterateRange would pass (the exported DB and Reader
+// methods themselves are replaced engine-wide by the convention stubs of zz_verif_model_db.go, so
+// they cannot be the entry point here). Natively the stubs do not exist: the very same harness opens
+// a real in-memory pebble database and goes through DB.* and Reader.*, so every counterexample and
+// every witness is re-executed on real pebble (and the Observe values compare model and pebble).
 // ---------------------------------------------------------------------------------------------
 
 type zzKV struct{ k, v []byte }
@@ -44,16 +47,13 @@ func (m *zzIterModel) valid() bool {
 	return true
 }
 
-func zzStubNewIter(d *pebble.DB, o *pebble.IterOptions) *pebble.Iterator {
+// zzModelNewIter: what pebble's NewIter(o) means for the model.
+func zzModelNewIter(o *pebble.IterOptions) *pebble.Iterator {
 	zzIM.lower, zzIM.upper, zzIM.pos = nil, nil, -1
 	if o != nil {
 		zzIM.lower, zzIM.upper = o.LowerBound, o.UpperBound
 	}
 	return nil // the model is package state; the iterator value itself is never dereferenced
-}
-
-func zzStubSnapNewIter(s *pebble.Snapshot, o *pebble.IterOptions) *pebble.Iterator {
-	return zzStubNewIter(nil, o)
 }
 
 func zzStubSeekGE(it *pebble.Iterator, key []byte) bool {
@@ -118,17 +118,53 @@ func zzVarBytes(t *zzT, name string, lo, hi int) []byte {
 	return t.Bytes(name, n)
 }
 
-// zzScanner is what DB and Reader have in common.
-type zzScanner interface {
-	IterateKey(prefix []byte, limit int, reverse bool) [][]byte
-	Iterate(prefix []byte, limit int, reverse bool) []KeyValue
-	IterateRange(start, end []byte, limit int, reverse bool) []KeyValue
+// zzScans: the three scans, on the model (engine) or on real pebble through DB and Reader (native).
+type zzScans struct {
+	t      *zzT
+	real   *DB
+	reader *Reader
+}
+
+func (z *zzScans) iterateRange(start, end []byte, limit int, reverse bool) []KeyValue {
+	if z.t.Symbolic() {
+		return iterateRange(zzModelNewIter(nil), start, end, limit, reverse) // = DB.IterateRange / Reader.IterateRange
+	}
+	got := z.real.IterateRange(start, end, limit, reverse)
+	z.t.Assert(zzSameKVs2(got, z.reader.IterateRange(start, end, limit, reverse)), "Reader.IterateRange agrees with DB.IterateRange")
+	return got
+}
+
+func (z *zzScans) iterate(prefix []byte, limit int, reverse bool) []KeyValue {
+	if z.t.Symbolic() { // = DB.Iterate / Reader.Iterate
+		return iteratePrefix(zzModelNewIter(&pebble.IterOptions{LowerBound: prefix, UpperBound: upperBound(prefix)}), prefix, limit, reverse)
+	}
+	got := z.real.Iterate(prefix, limit, reverse)
+	z.t.Assert(zzSameKVs2(got, z.reader.Iterate(prefix, limit, reverse)), "Reader.Iterate agrees with DB.Iterate")
+	return got
+}
+
+func (z *zzScans) iterateKey(prefix []byte, limit int, reverse bool) [][]byte {
+	if z.t.Symbolic() { // = DB.IterateKey / Reader.IterateKey
+		return iterateKeyPrefix(zzModelNewIter(&pebble.IterOptions{LowerBound: prefix, UpperBound: upperBound(prefix)}), prefix, limit, reverse)
+	}
+	return z.real.IterateKey(prefix, limit, reverse)
+}
+
+func zzSameKVs2(a, b []KeyValue) bool {
+	if len(a) != len(b) {
+		return false
+	}
+	for i := range a {
+		if !bytes.Equal(a[i].Key(), b[i].Key()) || !bytes.Equal(a[i].Value(), b[i].Value()) {
+			return false
+		}
+	}
+	return true
 }
 
 // zzOpen: n ≤ N entries with strictly ascending symbolic keys of 1–2 bytes and one-byte values, held
-// by the iterator model (engine) or written to a real in-memory pebble database (native); read
-// through the DB or (READER=1: a choice) through a snapshot Reader.
-func zzOpen(t *zzT) ([]zzKV, zzScanner) {
+// by the iterator model (engine) or written to a real in-memory pebble database (native).
+func zzOpen(t *zzT) ([]zzKV, *zzScans) {
 	var kvs []zzKV
 	n := t.Range("store.n", 0, t.Param("N", 2))
 	for i := 0; i < n; i++ {
@@ -138,13 +174,9 @@ func zzOpen(t *zzT) ([]zzKV, zzScanner) {
 		}
 		kvs = append(kvs, zzKV{k, t.Bytes(t.Name("store.v", i), 1)})
 	}
-	viaReader := t.Param("READER", 0) == 1 && t.Bool("via.reader")
 	if t.Symbolic() {
 		zzIM = &zzIterModel{e: kvs}
-		if viaReader {
-			return kvs, &Reader{}
-		}
-		return kvs, &DB{}
+		return kvs, &zzScans{t: t}
 	}
 	d, err := NewInMemoryDB()
 	if err != nil {
@@ -153,10 +185,7 @@ func zzOpen(t *zzT) ([]zzKV, zzScanner) {
 	for _, kv := range kvs {
 		d.Set(kv.k, kv.v)
 	}
-	if viaReader {
-		return kvs, d.NewReader()
-	}
-	return kvs, d
+	return kvs, &zzScans{t: t, real: d, reader: d.NewReader()}
 }
 
 // zzExpect: the first `limit` (all if -1) entries satisfying in, ascending / descending.
@@ -210,10 +239,8 @@ func zzLimit(t *zzT) int {
 // Labels: per direction soundness (only keys inside the bounds) and the whole result; limit 0 apart.
 //
 //zz:opt loop=16
-//zz:quick N=2 L=2 READER=0
-//zz:thorough N=3 L=2 READER=1
-//zz:stub (*github.com/cockroachdb/pebble.DB).NewIter zzStubNewIter
-//zz:stub (*github.com/cockroachdb/pebble.Snapshot).NewIter zzStubSnapNewIter
+//zz:quick N=2 L=2
+//zz:thorough N=3 L=2
 //zz:stub (*github.com/cockroachdb/pebble.Iterator).SeekGE zzStubSeekGE
 //zz:stub (*github.com/cockroachdb/pebble.Iterator).SeekLT zzStubSeekLT
 //zz:stub (*github.com/cockroachdb/pebble.Iterator).First zzStubFirst
@@ -233,7 +260,7 @@ func zzH_C12_db_iterate_range(t *zzT) {
 	reverse := t.Bool("q.reverse")
 	in := func(k []byte) bool { return bytes.Compare(k, start) >= 0 && bytes.Compare(k, end) <= 0 }
 
-	got := d.IterateRange(start, end, limit, reverse)
+	got := d.iterateRange(start, end, limit, reverse)
 
 	t.ObserveBytes("result", zzDigest(got))
 	if limit == 0 {
@@ -260,10 +287,8 @@ func zzH_C12_db_iterate_range(t *zzT) {
 // prefix, in order. The bounds handed to pebble come from the real upperBound.
 //
 //zz:opt loop=16
-//zz:quick N=2 L=2 READER=0
-//zz:thorough N=3 L=2 READER=1
-//zz:stub (*github.com/cockroachdb/pebble.DB).NewIter zzStubNewIter
-//zz:stub (*github.com/cockroachdb/pebble.Snapshot).NewIter zzStubSnapNewIter
+//zz:quick N=2 L=2
+//zz:thorough N=3 L=2
 //zz:stub (*github.com/cockroachdb/pebble.Iterator).SeekGE zzStubSeekGE
 //zz:stub (*github.com/cockroachdb/pebble.Iterator).SeekLT zzStubSeekLT
 //zz:stub (*github.com/cockroachdb/pebble.Iterator).First zzStubFirst
@@ -281,8 +306,8 @@ func zzH_C12_db_iterate_prefix(t *zzT) {
 	reverse := t.Bool("q.reverse")
 	in := func(k []byte) bool { return bytes.HasPrefix(k, prefix) }
 
-	got := d.Iterate(prefix, limit, reverse)
-	keys := d.IterateKey(prefix, limit, reverse)
+	got := d.iterate(prefix, limit, reverse)
+	keys := d.iterateKey(prefix, limit, reverse)
 
 	t.ObserveBytes("result", zzDigest(got))
 	sameKeys := len(keys) == len(got)
